@@ -113,7 +113,7 @@ def run_fault(cfg, source, k, n, twin, prefix=None, folder=False):
             out["rows"], out["nb"] = cal.n_sampled_params, cal.current_batch_index
             out["fired"] = out["caught"] is not None or (source == "model" and models.N_CALLS > k) or (source == "loss" and len(rec.loss_calls) > k) or (source == "sampler" and rec.n_sample_batch > k)
             out["mid_threads"] = [t.name for t in set(threading.enumerate()) - before if not rl]
-            out["agent_alive"] = bool(rl and cal.scheduler._agent_thread is not None and cal.scheduler._agent_thread.is_alive())  # noqa: SLF001
+            out["agent_alive"] = bool(rl and rh.vt.live_threads())
             out["first"] = judge(cal, out["caught"], expected, twin, out["mid_threads"], ["agent"] if out["agent_alive"] else [])
             # no more faults: the same object must be usable
             models.FAULT_AT = None
